@@ -5,6 +5,7 @@
 //	raftabs -seed S -n N -events E -out FILE [-storage mem] [-profile P] [-from I]
 //	raftabs -crashpoints -seed S -n N -events E -out FILE   (every step/ready event of N base schedules followed by a
 //	                                                  crash of that node, a restart and 150 more generated events)
+//	raftabs -scenario NAME|all -out FILE          (directed schedules, see scenarios.go)
 //	raftabs -json trace.jsonl... -out FILE        (flatten traces written by raftsim -trace)
 //
 // Line format (tab separated):
@@ -19,7 +20,9 @@
 //	                                                send sub-step to run; appapplied = the application's cursor;
 //	                                                log = entries first.. as t:k:p:x (p in hex; k: 0 empty 1 normal 2 conf
 //	                                                3 other) comma separated or -
-//	S from type to term index reject                a message put on the network in this event
+//	S from type to term index reject commit logterm match snapi snapt ents
+//	                                                a message put on the network in this event (match = the sender's
+//	                                                Progress.Match for the destination or -1; ents as in N)
 //	A node i t k p x                                an entry (k as above) or snapshot (k = 9, up to i) applied by the application
 //	P text                                          recovered Go panic
 //	X                                               end of event
@@ -87,6 +90,9 @@ func b2i(b bool) int {
 // per node: did the in-flight Ready already put a message on the network?
 var sentInReady = map[uint64]bool{}
 
+// per node: Progress.Match per peer as last recorded
+var lastMatch = map[uint64]map[uint64]uint64{}
+
 func emit(w *bufio.Writer, rec *raftdrv.Record) {
 	if rec.Ev.K == "step" || rec.Ev.K == "init" || rec.Ev.K == "crash" || rec.Ev.K == "restart" {
 		sentInReady[rec.Ev.N] = false
@@ -103,6 +109,15 @@ func emit(w *bufio.Writer, rec *raftdrv.Record) {
 		fmt.Fprintf(w, "P\t%s\n", strings.ReplaceAll(strings.ReplaceAll(rec.Panic, "\n", " "), "\t", " "))
 	}
 	for _, n := range rec.Nodes {
+		if n.Alive {
+			pm := map[uint64]uint64{}
+			for _, p := range n.Prs {
+				pm[p.ID] = p.Match
+			}
+			lastMatch[n.ID] = pm
+		} else {
+			delete(lastMatch, n.ID)
+		}
 		// sendpending: the effects of the in-flight Ready are not yet visible outside the node: its send
 		// sub-step has not run, or it ran without putting anything on the network (the Ready in which a
 		// node turns leader sends first) and the Ready is not yet persisted
@@ -130,7 +145,18 @@ func emit(w *bufio.Writer, rec *raftdrv.Record) {
 			n.Commit, n.First, n.Dummy, ids(n.Voters), ids(n.Learners), sp, n.App.Applied, ents(n.Log))
 	}
 	for _, m := range rec.Add {
-		fmt.Fprintf(w, "S\t%d\t%d\t%d\t%d\t%d\t%d\n", m.Msg.From, m.Msg.Type, m.Msg.To, m.Msg.Term, m.Msg.Index, b2i(m.Msg.Reject))
+		si, st := uint64(0), uint64(0)
+		if m.Msg.Snap != nil {
+			si, st = m.Msg.Snap.I, m.Msg.Snap.T
+		}
+		match := int64(-1) // the sender's Progress.Match for the destination, if the sender has one
+		if pm, ok := lastMatch[m.Msg.From]; ok {
+			if v, ok := pm[m.Msg.To]; ok {
+				match = int64(v)
+			}
+		}
+		fmt.Fprintf(w, "S\t%d\t%d\t%d\t%d\t%d\t%d\t%d\t%d\t%d\t%d\t%d\t%s\n", m.Msg.From, m.Msg.Type, m.Msg.To, m.Msg.Term, m.Msg.Index,
+			b2i(m.Msg.Reject), m.Msg.Commit, m.Msg.LogTerm, match, si, st, ents(m.Msg.Ents))
 	}
 	for _, a := range rec.Applied {
 		fmt.Fprintf(w, "A\t%d\t%d\t%d\t%d\t%x\t%d\n", a.N, a.E.I, a.E.T, kindCode(a.E.K), a.E.P, a.E.X)
@@ -148,6 +174,7 @@ func main() {
 	profile := flag.String("profile", "", "force a generator profile")
 	jsonMode := flag.Bool("json", false, "flatten JSONL trace files given as arguments")
 	cpMode := flag.Bool("crashpoints", false, "crash at every step/ready event of the base schedules")
+	scName := flag.String("scenario", "", "run the directed scenario NAME (or all) instead of generated schedules")
 	flag.Parse()
 	f, err := os.Create(*out)
 	if err != nil {
@@ -189,6 +216,16 @@ func main() {
 	}
 	hist := map[string]int{}
 	recs := 0
+	if *scName != "" {
+		dir, _ := os.MkdirTemp("", "raftabs")
+		n, problems := runScenarios(*scName, w, dir)
+		os.RemoveAll(dir)
+		for _, p := range problems {
+			fmt.Printf("SCENARIO-PROBLEM %s\n", p)
+		}
+		fmt.Printf("raftabs scenarios=%d problems=%d\n", n, len(problems))
+		return
+	}
 	if *cpMode {
 		ntr := 0
 		for i := *from; i < *from+*n; i++ {
